@@ -3,7 +3,7 @@
    xor-lists of and-lists of simple expressions (binding strength  not > and > xor > or; a run of the
    same operator is one node), a simple expression is a comparison `lhs op literal` / `lhs in {items}` /
    `lhs in $list`, a bare boolean (or boolean-array) left-hand side, `not`/`!` applied to a simple
-   expression, or a parenthesised filter, where a left-hand side is a field followed by any number of
+   expression, a parenthesised filter, or a quantifier any( ) / all( ) over a boolean-array expression, where a left-hand side is a field followed by any number of
    index accesses `[n]`, `["key"]`, `[*]`; a left-hand side that iterates ([*]) or is a boolean array makes a
    boolean-array expression (class K = true), which combines only with its like; every operator may be
    written in either of its spellings; spaces, carriage returns and line feeds may stand between any
@@ -162,6 +162,27 @@ Inductive GSimple : bool -> N -> bytes -> lexpr -> Prop :=
 | GS_paren K d ws1 t e ws2 :
     layout_ws ws1 -> layout_ws ws2 -> d < st_max_depth st -> GLogical K (d + 1) t e ->
     GSimple K d (40 :: ws1 ++ t ++ ws2 ++ [41]) (EParen e)
+(* any( ) / all( ): the argument is a boolean-array expression.  One that begins with `(`, `not` or `!` may
+   be a whole chain; otherwise it is a single comparison whose left-hand side iterates, or a bare
+   Array(Bool) left-hand side without [*] *)
+| GS_quant_logical d q qsp ws1 ws2 t le ws3 :
+    In (qsp, q) [(bs "any", QAny); (bs "all", QAll)] -> layout_ws ws1 -> layout_ws ws2 -> layout_ws ws3 ->
+    d < st_max_depth st -> GLogical true (d + 1) t le ->
+    (exists x, t = 40 :: x \/ t = 33 :: x \/ t = bs "not" ++ x) ->
+    GSimple false d (qsp ++ ws1 ++ 40 :: ws2 ++ t ++ ws3 ++ [41]) (EQuantLogical q le)
+| GS_quant_cmp d q qsp ws1 ws2 name i t0 itxt idx t wsa sp sym wsb lit c ws3 :
+    In (qsp, q) [(bs "any", QAny); (bs "all", QAll)] -> layout_ws ws1 -> layout_ws ws2 -> layout_ws ws3 ->
+    d < st_max_depth st ->
+    names_field name i t0 -> idx_text t0 itxt idx t -> Nat.ltb 0 (map_each_count idx) = true ->
+    layout_ws wsa -> layout_ws wsb -> (sym = true \/ wsa <> []) ->
+    cmp_text_s t sp sym lit c -> tok_start lit -> tok_end lit ->
+    GSimple false d (qsp ++ ws1 ++ 40 :: ws2 ++ (name ++ itxt ++ wsa ++ sp ++ wsb ++ lit) ++ ws3 ++ [41])
+            (EQuantLogical q (EComparison (IField i idx) c))
+| GS_quant_index d q qsp ws1 ws2 name i t0 itxt idx ws3 :
+    In (qsp, q) [(bs "any", QAny); (bs "all", QAll)] -> layout_ws ws1 -> layout_ws ws2 -> layout_ws ws3 ->
+    d < st_max_depth st ->
+    names_field name i t0 -> idx_text t0 itxt idx (TArray TBool) -> map_each_count idx = 0%nat ->
+    GSimple false d (qsp ++ ws1 ++ 40 :: ws2 ++ (name ++ itxt) ++ ws3 ++ [41]) (EQuantIndex q (IField i idx))
 (* operator, simple expression, ... : the chain that follows the first simple expression *)
 with GTail : bool -> N -> @chain lexpr -> bytes -> Prop :=
 | GT_nil K d : GTail K d [] []
